@@ -49,7 +49,8 @@ def gen_member(rng, mid, n):
     kind = rng.choice(["arr", "arr", "arr", "arr", "arr", "arr", "vec", "vec", "arr2"])
     order = list(range(max(n, 1)))
     rng.shuffle(order)
-    return {"kind": kind, "nc": rng.choice([1, 2, 3]) if kind == "vec" else (rng.choice([2, 3]) if kind == "arr2" else 1), "dtype": rng.choice(["f8", "f8", "f8", "f4", "i8", "i4"] + (list(NARROW) if kind == "arr" else [])),
+    cdt = rng.choice([["i8", "f8", "f8"], ["f4", "f8", "f8"], ["f8", "f4", "i8"], ["i4", "f8", "f4"]]) if kind == "vec" and rng.random() < 0.3 else None
+    return {"cdt": cdt, "kind": kind, "nc": rng.choice([1, 2, 3]) if kind == "vec" else (rng.choice([2, 3]) if kind == "arr2" else 1), "dtype": rng.choice(["f8", "f8", "f8", "f4", "i8", "i4"] + (list(NARROW) if kind == "arr" else [])),
             "unit": rng.choice(["", "m", "g", "cm/s"]), "mid": mid, "order": order}
 
 
@@ -143,6 +144,14 @@ def stamp(m, n):
         comps.append(np.array([b + 20000 * c for b in base], dtype=DT[m["dtype"]]))
     if m["kind"] == "arr2":
         return [np.stack(comps, axis=1)] if n else [np.zeros((0, m["nc"]), dtype=DT[m["dtype"]])]
+    if m["kind"] == "vec" and m.get("cdt"):
+        # components of one Vector stored with different dtypes; the float64 ones carry a fraction no narrower type can hold
+        out = []
+        for c, col in enumerate(comps):
+            dt = DT[m["cdt"][c % len(m["cdt"])]]
+            col = col.astype(np.float64) + (1.0 / 3.0 if dt == np.float64 else 0.0)
+            out.append(col.astype(dt))
+        return out
     return comps
 
 
